@@ -290,6 +290,11 @@ pub(crate) use utils::test_utils;
 #[cfg(doctest)]
 mod book_tests;
 
+#[cfg(scylla_verif)]
+#[doc(hidden)]
+#[allow(missing_docs, unreachable_pub, unnameable_types)]
+pub mod verif;
+
 #[cfg(all(scylla_unstable, feature = "unstable-testing"))]
 #[doc(hidden)]
 pub mod internal_testing {
